@@ -48,8 +48,10 @@ class Found(object):
             self.kind = 'extension'
         elif isinstance(ld, importlib.machinery.SourceFileLoader):
             self.kind = 'package' if self.is_package else 'source'
+        elif isinstance(ld, importlib.machinery.SourcelessFileLoader):
+            self.kind = 'sourceless'            # a real module, but not one supp may be asked to analyse
         else:
-            self.kind = 'other'                 # sourceless .pyc, zip, ...: outside the quantifier
+            self.kind = 'other'                 # zip, ...: outside the quantifier
 
 
 class Absent(object):
@@ -135,6 +137,9 @@ def same_file(a, b):
         return os.path.realpath(a) == os.path.realpath(b)
     except (OSError, ValueError, TypeError):
         return False
+
+
+MODULE_KIND = {'source': 'module', 'sourceless': 'sourceless-module', 'extension': 'compiled-module'}
 
 
 # ---------------------------------------------------------------------------------------
@@ -232,7 +237,7 @@ class TreeMon(object):
             if par is None or par.entry is None or par.entry >= j:
                 return None
             if orc.reason == 'parent-is-module':
-                return 'submodule-from-later-path-entry:shadowing-parent-is-module'
+                return 'submodule-from-later-path-entry:shadowing-parent-is-' + MODULE_KIND.get(par.kind, 'module')
             return 'submodule-from-later-path-entry:shadowing-parent-is-package'
         return None
 
@@ -243,8 +248,9 @@ class TreeMon(object):
         if isinstance(orc, Namespace):
             p.count('filtered:namespace-portion-on-the-way')
             return
-        if isinstance(orc, Found) and orc.kind == 'other':
-            p.count('filtered:not-source-package-or-extension')
+        if isinstance(orc, Found) and orc.kind in ('other', 'sourceless'):
+            # supp would import (execute) it; the quantifier lists source, package, extension
+            p.count('filtered:found-is-sourceless-or-other(supp would execute it)')
             return
         loaded = name in sys.modules          # before supp is asked: it may import compiled modules
         if via:
@@ -402,6 +408,126 @@ class TreeMon(object):
             self.violation('norm-package-resolves-beyond-top-level',
                            '%s = %r, resolve_name raises ImportError(%s)' % (call, got[1], want[1]), query)
 
+    # -- relative names, histories on one Project -------------------------------------------
+    def _rel_want(self, q):
+        spec, root, rel = q
+        try:
+            return ('ok', importlib.util.resolve_name(spec, gen_tree.package_of(rel)))
+        except ImportError:
+            return ('ImportError', None)
+
+    def _rel_got(self, project, q):
+        spec, root, rel = q
+        fn = os.path.join(self.dirs[root], *rel.split('/'))
+        try:
+            return ('ok', project.norm_package(spec, fn))
+        except ImportError:
+            return ('ImportError', None)
+        except Exception as e:
+            return ('raise:' + type(e).__name__, repr(e))
+
+    def run_history(self, history, stop_after=None):
+        """the queries of ``history`` in that order on ONE fresh Project; -> indexes that disagree with
+        resolve_name."""
+        from supp.project import Project
+        project = Project(list(self.roots))
+        bad = []
+        for idx, q in enumerate(history):
+            want = self._rel_want(q)
+            got = self._rel_got(project, q)
+            if got != want:
+                bad.append((idx, got, want))
+                if stop_after and len(bad) >= stop_after:
+                    break
+        return bad
+
+    def _climbed(self, q):
+        spec, root, rel = q
+        level = len(spec) - len(spec.lstrip('.'))
+        parts = rel.split('/')
+        return (root, tuple(parts[:max(0, len(parts) - level)]), level > len(parts))
+
+    def check_rel_histories(self, queries, rng):
+        """norm_package keeps a per-Project cache: whatever was asked before, every answer must be the
+        one resolve_name gives.  Sweeps: deepest/shallowest/shuffled files first, each file's levels
+        ascending and descending, all queries shuffled, highest level first."""
+        p = self.p
+        if not queries:
+            return
+
+        def level(q):
+            return len(q[0]) - len(q[0].lstrip('.'))
+        files = sorted({(q[1], q[2]) for q in queries})
+        byfile = {}
+        for q in queries:
+            byfile.setdefault((q[1], q[2]), []).append(q)
+
+        def build(order, desc):
+            out = []
+            for f in order:
+                out += sorted(byfile[f], key=level, reverse=desc)
+            return out
+        deepest = sorted(files, key=lambda f: (-f[1].count('/'), f))
+        shallow = sorted(files, key=lambda f: (f[1].count('/'), f))
+        shuf = list(files)
+        rng.shuffle(shuf)
+        allq = list(queries)
+        rng.shuffle(allq)
+        histories = [
+            ('deepest-file-first/levels-ascending', build(deepest, False)),
+            ('deepest-file-first/levels-descending', build(deepest, True)),
+            ('shallowest-file-first/levels-ascending', build(shallow, False)),
+            ('shallowest-file-first/levels-descending', build(shallow, True)),
+            ('shuffled-files/levels-ascending', build(shuf, False)),
+            ('shuffled-files/levels-descending', build(shuf, True)),
+            ('all-queries-shuffled', allq),
+            ('highest-level-first', sorted(queries, key=lambda q: -level(q))),
+        ]
+        p.count('relative_histories', len(histories))
+        for hname, hist in histories:
+            p.hist('relative_history_kind', hname)
+            bad = self.run_history(hist, stop_after=3)
+            p.count('relative_history_answers_compared', len(hist) if not bad else bad[-1][0] + 1)
+            for idx, got, want in bad:
+                q = hist[idx]
+                # does the query fail on its own?  then it is not a matter of history (check_rel reports it)
+                if self.run_history([q]):
+                    p.count('relative_history_mismatch_also_without_history')
+                    continue
+                # smallest history: one earlier query that is enough to spoil this one
+                minimal = None
+                for k in range(idx):
+                    if hist[k] != q and self.run_history([hist[k], q]) and not self.run_history([hist[k]]):
+                        minimal = [hist[k], q]
+                        break
+                if minimal:
+                    a, b = self._climbed(minimal[0]), self._climbed(q)
+                    if a[0] == b[0] and len(a[1]) > len(b[1]) and a[1][:len(b[1])] == b[1]:
+                        relation = 'after-query-resolved-in-a-descendant-directory'
+                    elif a[0] == b[0] and len(a[1]) < len(b[1]) and b[1][:len(a[1])] == a[1]:
+                        relation = 'after-query-resolved-in-an-ancestor-directory'
+                    elif a[:2] == b[:2]:
+                        relation = 'after-query-resolved-in-the-same-directory'
+                    else:
+                        relation = 'after-query-resolved-in-an-unrelated-directory'
+                else:
+                    relation = 'after-several-queries'
+                    minimal = hist[:idx + 1]
+                if want[0] == 'ok':
+                    symptom = 'wrong-name' if got[0] == 'ok' else 'refused' if got[0] == 'ImportError' else got[0]
+                else:
+                    symptom = 'resolves-beyond-top-level' if got[0] == 'ok' else got[0]
+                spec, root, rel = q
+                self.violation(
+                    'norm-package-depends-on-history:%s:%s' % (relation, symptom),
+                    'on one Project, after %s, norm_package(%r, <r%d>/%s) gives %s, resolve_name(%r, %r) gives %s '
+                    '(fresh Project: correct; sweep %s)' % (
+                        'norm_package(%r, <r%d>/%s)' % (minimal[0][0], minimal[0][1], minimal[0][2]) if len(minimal) == 2
+                        else '%d earlier queries' % (len(minimal) - 1),
+                        spec, root, rel, got[1] if got[0] == 'ok' else got[0], spec, gen_tree.package_of(rel),
+                        want[1] if want[0] == 'ok' else 'ImportError', hname),
+                    {'type': 'rel-history', 'history': minimal, 'sweep': hname})
+
     # -- proposals ----------------------------------------------------------------------
     def check_assist(self, form, pkgspec, root=None, rel=None, prefix=''):
         """form: 'import' -> 'import X.'   'from' -> 'from X.'   'from-import' -> 'from X import '
@@ -438,6 +564,11 @@ class TreeMon(object):
             if isinstance(orc, Namespace) or (isinstance(orc, Found) and orc.kind == 'other'):
                 p.count('filtered:namespace-portion-on-the-way')
                 return
+            if isinstance(orc, Found) and orc.kind == 'sourceless' and form == 'from-import':
+                p.count('filtered:found-is-sourceless-or-other(supp would execute it)')
+                return
+            if isinstance(orc, Found) and orc.kind in ('sourceless', 'extension'):
+                p.count('proposal_sets_after_non_source_module')
             parent = orc if isinstance(orc, Found) else None
             must = self.children(parent) if parent else set()
         else:
@@ -507,15 +638,18 @@ class TreeMon(object):
             if absname and isinstance(orc, (Found, Absent)):
                 for idx, e in enumerate(self.path):
                     d = os.path.join(e, *absname.split('.'))
-                    if os.path.exists(os.path.join(d, g + '.py')) or os.path.exists(os.path.join(d, g, '__init__.py')):
+                    if os.path.exists(os.path.join(d, g, '__init__.py')) or \
+                            any(os.path.exists(os.path.join(d, g + sfx)) for sfx in importlib.machinery.all_suffixes()):
                         first = orc if isinstance(orc, Found) else orc.parent
                         if first is not None and first.entry is not None and first.entry < idx:
                             # which kind of earlier-entry object hides the later directory?
                             if isinstance(orc, Found):
-                                hides_pkg = orc.is_package
+                                what = 'package' if orc.is_package else MODULE_KIND.get(orc.kind, 'module')
+                            elif orc.reason == 'missing':
+                                what = 'package'
                             else:
-                                hides_pkg = orc.reason == 'missing'
-                            lab = 'proposal-from-later-path-entry:shadowing-' + ('package' if hides_pkg else 'module')
+                                what = MODULE_KIND.get(orc.parent.kind, 'module')
+                            lab = 'proposal-from-later-path-entry:shadowing-' + what
                         break
             self.violation(lab or 'proposal-not-importable', '%s proposes %r; importlib: %s, and %r is not loaded' % (
                 call, g, self.describe(o2), full), query)
@@ -588,8 +722,11 @@ class TreeMon(object):
         if env.get('selfcheck'):
             self.selfcheck([n for _, n in names])
         # relative specifiers from every file importlib would load under this order
+        rel_queries = []
         for root in range(len(tree['roots'])):
             for rel in sorted(tree['roots'][root]):
+                if not rel.endswith('.py'):
+                    continue            # no text to edit in a sourceless / compiled module
                 name, kind = gen_tree.dotted_of(rel)
                 fn = os.path.join(self.dirs[root], *rel.split('/'))
                 orc = self.walk(name)
@@ -600,19 +737,23 @@ class TreeMon(object):
                 specs = gen_tree.relative_specs(rng, tree, root, rel)
                 for spec in specs:
                     self.check_rel(spec, root, rel)
+                    rel_queries.append([spec, root, rel])
                 for spec in specs:
                     if spec.strip('.') and rng.random() < 0.6:
                         continue
                     form = rng.choice(('from', 'from-import'))
                     self.check_assist(form, spec, root, rel)
+        # the same relative obligations again as query HISTORIES, each on one long-lived Project
+        self.check_rel_histories(rel_queries, rng)
         # proposals for absolute packages
         pk = sorted(n for n in fb)
         extra = ['', 'zq_absent', 'json', 'email.mime', 'os', 'xml.dom'] + [c for c in env['compiled'][:2]]
         anyfile = None
         for root in range(len(tree['roots'])):
             for rel in sorted(tree['roots'][root]):
-                anyfile = (root, rel)
-                break
+                if rel.endswith('.py'):
+                    anyfile = (root, rel)
+                    break
             if anyfile:
                 break
         for n in pk + extra:
@@ -621,7 +762,7 @@ class TreeMon(object):
                     continue
                 if form == 'from-import' and n in extra and rng.random() < 0.85:
                     continue            # parsing a large stdlib module per order buys nothing here
-                f = anyfile if rng.random() < 0.5 else (None, None)
+                f = anyfile if anyfile and rng.random() < 0.5 else (None, None)
                 pref = ''
                 if n in pk and rng.random() < 0.15:
                     pref = rng.choice(('m', 's', 'p'))
@@ -659,7 +800,11 @@ def tree_features(tree):
     depth = max(len(n.split('.')) for n in fb)
     std = set(gen_tree.COMPILED) | set(gen_tree.STDLIB_PKGS) | set(gen_tree.STDLIB_MODS)
     decoy = [n for n in fb if n.rpartition('.')[2] in std]
-    return {'roots': len(tree['roots']), 'multi': len(multi), 'flip': len(flip), 'depth': depth,
+    ns = {'sourceless', 'compiled-link'}
+    return {'sourceless': sum(1 for v in fb.values() for _, _, k in v if k == 'sourceless'),
+            'ext': sum(1 for v in fb.values() for _, _, k in v if k == 'compiled-link'),
+            'ns_shadow': sum(1 for v in fb.values() if {k for _, _, k in v} & ns and 'package' in {k for _, _, k in v}),
+            'roots': len(tree['roots']), 'multi': len(multi), 'flip': len(flip), 'depth': depth,
             'decoys': len(decoy), 'files': sum(len(r) for r in tree['roots'])}
 
 
@@ -671,7 +816,7 @@ def work_trees(arg):
     budget = {}
     for i in range(start, start + count):
         rng = random.Random('%s:C07:tree:%d' % (seed, i))
-        tree = gen_tree.gen_tree(rng)
+        tree = gen_tree.gen_tree(rng, env['compiled'])
         ft = tree_features(tree)
         part.count('trees')
         part.hist('tree_roots', ft['roots'])
@@ -680,9 +825,16 @@ def work_trees(arg):
         part.count('trees_with_same_name_in_two_roots', 1 if ft['multi'] else 0)
         part.count('trees_with_module_vs_package_flip', 1 if ft['flip'] else 0)
         part.count('trees_with_stdlib_decoy', 1 if ft['decoys'] else 0)
+        part.count('trees_with_sourceless_module', 1 if ft['sourceless'] else 0)
+        part.count('trees_with_real_extension_in_a_root', 1 if ft['ext'] else 0)
+        part.count('trees_with_non_source_module_shadowing_a_package_of_another_root', 1 if ft['ns_shadow'] else 0)
         base = tempfile.mkdtemp(prefix='vf-')
         try:
-            dirs = gen_tree.write_tree(tree, base)
+            try:
+                dirs = gen_tree.write_tree(tree, base)
+            except gen_tree.TreeNotWritable:
+                part.count('filtered:tree-needs-an-extension-module-this-interpreter-lacks')
+                continue
             fresh_finders()
             for order in gen_tree.orders(tree):
                 part.count('tree_orders')
@@ -716,9 +868,12 @@ def main(run):
                           '(%s) and stdlib source names with their submodules (behind decoys when the tree has one), '
                           'names that exist only in sys.modules' % ', '.join(gen_tree.COMPILED),
         'relative_names': 'levels 1..depth+2 from every file that importlib loads under the order, bare dots / sibling / '
-                          'dotted tail / absent tail; norm_package vs resolve_name, then get_nmodule vs the walk',
+                          'dotted tail / absent tail; norm_package vs resolve_name, then get_nmodule vs the walk; the same obligations '
+                          'again as 8 query histories per (tree, order), each on ONE long-lived Project (deepest / shallowest / '
+                          'shuffled files first with levels ascending and descending, all queries shuffled, highest level first)',
         'proposals': "assist on 'import X.', 'from X.', 'from X import ' for every package and module of the tree, absent and "
-                     'stdlib names, the top level, and relative packages',
+                     'stdlib names, the top level, and relative packages; also after sourceless .pyc modules and real extension '
+                     'modules placed in a root (both sides must say: not a package)',
     }
     return run.finish(
         rule='case = one generated tree under one order of its source roots (all queries above are made against it); '
@@ -727,7 +882,9 @@ def main(run):
         require=('resolutions_compared', 'oracle_found', 'oracle_absent', 'agree:same-source-file', 'agree:both-absent',
                  'agree:same-compiled-module', 'relative_names_compared', 'agree:relative-name', 'oracle_selfcheck_names',
                  'proposal_sets_compared', 'proposal_sets_with_required_children',
-                 'trees_with_same_name_in_two_roots', 'trees_with_module_vs_package_flip', 'trees_with_stdlib_decoy'),
+                 'trees_with_same_name_in_two_roots', 'trees_with_module_vs_package_flip', 'trees_with_stdlib_decoy',
+                 'relative_history_answers_compared', 'proposal_sets_after_non_source_module',
+                 'trees_with_non_source_module_shadowing_a_package_of_another_root'),
         assumptions=[
             'oracle = importlib.machinery.PathFinder.find_spec walked per component over roots + sys.path of the worker '
             'process, importlib.util.resolve_name, pkgutil.iter_modules (CPython %d.%d); meta-path finders other than '
@@ -738,9 +895,12 @@ def main(run):
             "loaded module's own file, or with ImportError",
             "for 'from X import ' only the required-children direction is checked (module attributes are mixed in); a "
             'proposal counts as importable when the walk finds it (pkg.__init__ therefore counts)',
-            'domain filters (counted under filtered:*): PEP 420 portions met on the walk, sourceless/other loaders, '
+            'sourceless .pyc modules (py_compile) and links to real extension modules are placed in roots only as shadowing '
+            'decoys: names below them and completions after them are compared, the sourceless module itself is never '
+            'handed to supp (it would execute it) and no relative query is made from it',
+            'domain filters (counted under filtered:*): PEP 420 portions met on the walk, names that resolve to a sourceless/other loader, '
             'relative specifiers from shadowed files; generated trees never contain namespace directories, x.py next to '
-            'x/, nested roots, or fake extension files',
+            'x/, two module files of one stem in a directory, nested roots, or fake extension files',
         ],
         exhaustive=False)
 
@@ -770,6 +930,13 @@ def replay(run, path):
                 mon.check_abs(q['name'], q.get('kind'))
             elif q['type'] == 'rel':
                 mon.check_rel(q['spec'], q['file'][0], q['file'][1])
+            elif q['type'] == 'rel-history':
+                hist = [list(x) for x in q['history']]
+                part.count('relative_history_answers_compared', len(hist))
+                for idx, got, want in mon.run_history(hist):
+                    mon.violation('norm-package-depends-on-history:replayed',
+                                  'step %d of the recorded history: norm_package(%r, <r%d>/%s) gives %r, resolve_name gives %r' % (
+                                      idx, hist[idx][0], hist[idx][1], hist[idx][2], got, want), q)
             elif q['type'] == 'assist':
                 f = q.get('file') or [None, None]
                 mon.check_assist(q['form'], q['pkg'], f[0], f[1], q.get('prefix', ''))
